@@ -14,44 +14,40 @@ Definition inner0 (t name : str) (attrs : list attr) (inner : list aclass) : acl
 
 Definition is_header (e : soap_ext) : bool := match e with SoapHeader _ _ _ => true | _ => false end.
 
-(* ---- shape of the extension list under wf (exactly one soap:body) and clause 1 *)
-Fixpoint hf_go (seen_body : bool) (l : list soap_ext) : bool :=
-  match l with
-  | [] => true
-  | SoapBody _ _ _ :: r => hf_go true r
-  | SoapHeader _ _ _ :: r => negb seen_body && hf_go seen_body r
-  end.
+(* ---- shape of the extension list under wf (exactly one soap:body, anywhere) *)
 Definition is_body (e : soap_ext) : bool := match e with SoapBody _ _ _ => true | _ => false end.
 
-Lemma hf_go_true r : hf_go true r = true -> filter is_body r = r.
+Lemma no_body_headers r : filter is_body r = [] -> forallb is_header r = true.
 Proof.
-  induction r as [|e r IH]; [reflexivity|]. destruct e; cbn; intros H; [|discriminate].
-  f_equal. apply IH. exact H.
+  induction r as [|e r IH]; [reflexivity|]. destruct e; cbn; [discriminate|]. exact IH.
 Qed.
 
 Lemma exts_shape bm use ns parts :
-  the_body bm = Some (use, ns, parts) -> header_first bm = true ->
-  exists hs, bm_exts bm = hs ++ [SoapBody use ns parts] /\ forallb is_header hs = true.
+  the_body bm = Some (use, ns, parts) ->
+  exists hs1 hs2, bm_exts bm = hs1 ++ SoapBody use ns parts :: hs2
+                  /\ forallb is_header hs1 = true /\ forallb is_header hs2 = true.
 Proof.
-  unfold the_body. change (header_first bm) with (hf_go false (bm_exts bm)).
+  unfold the_body.
   change (fun e : soap_ext => match e with SoapBody _ _ _ => true | SoapHeader _ _ _ => false end) with is_body.
   generalize (bm_exts bm) as l. intros l.
   induction l as [|e r IH]; [cbn; discriminate|].
   destruct e as [u n p|m prt u].
-  - cbn [filter is_body hf_go]. intros Hb Hf. rewrite (hf_go_true r Hf) in Hb.
-    destruct r as [|e2 r2]; [|discriminate].
-    inversion Hb; subst. exists []. auto.
-  - cbn [filter is_body hf_go negb andb]. intros Hb Hf.
-    destruct (IH Hb Hf) as [hs [E F]]. exists (SoapHeader m prt u :: hs). rewrite E. cbn. rewrite F. auto.
+  - cbn [filter is_body]. intros Hb.
+    destruct (filter is_body r) as [|x y] eqn:Ef; [|destruct x; discriminate].
+    inversion Hb; subst. exists [], r. repeat split. apply no_body_headers. exact Ef.
+  - cbn [filter is_body]. intros Hb.
+    destruct (IH Hb) as [hs1 [hs2 [E [F1 F2]]]]. exists (SoapHeader m prt u :: hs1), hs2. rewrite E. cbn. rewrite F1. auto.
 Qed.
 
-Lemma has_header_shape hs b : forallb is_header hs = true ->
-  existsb (fun e => match e with SoapHeader _ _ _ => true | _ => false end) (hs ++ [b])
-  = match hs with [] => is_header b | _ => true end.
+Lemma has_header_shape hs1 hs2 use ns parts :
+  forallb is_header hs1 = true -> forallb is_header hs2 = true ->
+  existsb (fun e => match e with SoapHeader _ _ _ => true | _ => false end) (hs1 ++ SoapBody use ns parts :: hs2)
+  = match hs1 ++ hs2 with [] => false | _ => true end.
 Proof.
-  destruct hs as [|h r]; cbn.
-  - destruct b; reflexivity.
-  - intros H. apply andb_true_iff in H as [H _]. destruct h; [discriminate|reflexivity].
+  intros H1 H2. rewrite existsb_app. cbn [existsb orb].
+  destruct hs1 as [|h r]; cbn.
+  - destruct hs2 as [|h r]; [reflexivity|]. cbn in H2. apply andb_true_iff in H2 as [H _]. destruct h; [discriminate|reflexivity].
+  - cbn in H1. apply andb_true_iff in H1 as [H _]. destruct h; [discriminate|reflexivity].
 Qed.
 
 (* ---- the envelope under construction: no Header yet / a Header with the attrs so far *)
@@ -106,15 +102,88 @@ Section Steps.
     intros Ha. unfold envelope_step. rewrite Ha. destruct q as [t n]. destruct o as [acc|]; reflexivity.
   Qed.
 
-  Lemma fold_envelope q m ns hs ahs use bodyns parts ab :
+  (* Body created before any Header *)
+  Definition bstate (q : qn) (m : option str) (ns : option str) (body : aclass) (h : list attr) : aclass :=
+    AClass q m TagBindingMessage ns [fwd (fst q) m_body None None; fwd (fst q) s_Header_title None None]
+           [body; inner0 (fst q) s_Header_title h []].
+
+  Lemma step_header_closed q m ns o ab e ah :
+    is_header e = true -> ext_attrs d style operation ptm bm e = Some ah ->
+    envelope_step d style operation ptm bm (Some (env_closed q m ns None o (inner0 (fst q) m_body ab []))) e
+    = Some (match o with
+            | Some h => env_closed q m ns None (Some (h ++ ah)) (inner0 (fst q) m_body ab [])
+            | None => bstate q m ns (inner0 (fst q) m_body ab []) ah
+            end).
+  Proof.
+    intros He Ha. destruct e as [? ? ?|msg prt u]; [discriminate|].
+    unfold envelope_step. rewrite Ha. destruct q as [t n]. destruct o as [acc|]; reflexivity.
+  Qed.
+
+  Lemma step_header_bstate q m ns ab h e ah :
+    is_header e = true -> ext_attrs d style operation ptm bm e = Some ah ->
+    envelope_step d style operation ptm bm (Some (bstate q m ns (inner0 (fst q) m_body ab []) h)) e
+    = Some (bstate q m ns (inner0 (fst q) m_body ab []) (h ++ ah)).
+  Proof.
+    intros He Ha. destruct e as [? ? ?|msg prt u]; [discriminate|].
+    unfold envelope_step. rewrite Ha. destruct q as [t n]. reflexivity.
+  Qed.
+
+  Lemma fold_headers_closed_some q m ns ab hs : forall h ahs,
     forallb is_header hs = true ->
     Forall2 (fun e ah => ext_attrs d style operation ptm bm e = Some ah) hs ahs ->
-    ext_attrs d style operation ptm bm (SoapBody use bodyns parts) = Some ab ->
-    fold_left (envelope_step d style operation ptm bm) (hs ++ [SoapBody use bodyns parts]) (Some (hstate q m ns None))
-    = Some (env_closed q m ns None (match hs with [] => None | _ => Some (concat ahs) end) (inner0 (fst q) m_body ab [])).
+    fold_left (envelope_step d style operation ptm bm) hs (Some (env_closed q m ns None (Some h) (inner0 (fst q) m_body ab [])))
+    = Some (env_closed q m ns None (Some (h ++ concat ahs)) (inner0 (fst q) m_body ab [])).
   Proof.
-    intros Hh HF Hb. rewrite fold_left_app, (fold_headers q m ns hs None ahs Hh HF). cbn [fold_left].
-    rewrite (step_body _ _ _ _ _ _ _ ab Hb). destruct hs; reflexivity.
+    induction hs as [|e r IH]; intros h ahs Hh HF.
+    - inversion HF; subst. cbn. rewrite app_nil_r. reflexivity.
+    - inversion HF as [|? ah ? ahs' Hah HF']; subst. cbn in Hh. apply andb_true_iff in Hh as [Hh1 Hh2].
+      cbn [fold_left]. rewrite (step_header_closed q m ns (Some h) ab e ah Hh1 Hah).
+      rewrite (IH _ _ Hh2 HF'). cbn [concat]. rewrite app_assoc. reflexivity.
+  Qed.
+
+  Lemma fold_headers_bstate q m ns ab hs : forall h ahs,
+    forallb is_header hs = true ->
+    Forall2 (fun e ah => ext_attrs d style operation ptm bm e = Some ah) hs ahs ->
+    fold_left (envelope_step d style operation ptm bm) hs (Some (bstate q m ns (inner0 (fst q) m_body ab []) h))
+    = Some (bstate q m ns (inner0 (fst q) m_body ab []) (h ++ concat ahs)).
+  Proof.
+    induction hs as [|e r IH]; intros h ahs Hh HF.
+    - inversion HF; subst. cbn. rewrite app_nil_r. reflexivity.
+    - inversion HF as [|? ah ? ahs' Hah HF']; subst. cbn in Hh. apply andb_true_iff in Hh as [Hh1 Hh2].
+      cbn [fold_left]. rewrite (step_header_bstate q m ns ab h e ah Hh1 Hah).
+      rewrite (IH _ _ Hh2 HF'). cbn [concat]. rewrite app_assoc. reflexivity.
+  Qed.
+
+  Lemma sort_closed q m ns o ab :
+    sort_envelope (env_closed q m ns None o (inner0 (fst q) m_body ab [])) = env_closed q m ns None o (inner0 (fst q) m_body ab []).
+  Proof. destruct q as [t n]. destruct o; reflexivity. Qed.
+
+  Lemma sort_bstate q m ns ab h :
+    sort_envelope (bstate q m ns (inner0 (fst q) m_body ab []) h) = env_closed q m ns None (Some h) (inner0 (fst q) m_body ab []).
+  Proof. destruct q as [t n]. reflexivity. Qed.
+
+  (* headers anywhere around the one body: after the sort the Header comes first *)
+  Lemma fold_envelope q m ns hs1 hs2 ahs1 ahs2 use bodyns parts ab :
+    forallb is_header hs1 = true -> forallb is_header hs2 = true ->
+    Forall2 (fun e ah => ext_attrs d style operation ptm bm e = Some ah) hs1 ahs1 ->
+    Forall2 (fun e ah => ext_attrs d style operation ptm bm e = Some ah) hs2 ahs2 ->
+    ext_attrs d style operation ptm bm (SoapBody use bodyns parts) = Some ab ->
+    option_map sort_envelope
+      (fold_left (envelope_step d style operation ptm bm) (hs1 ++ SoapBody use bodyns parts :: hs2) (Some (hstate q m ns None)))
+    = Some (env_closed q m ns None (match hs1 ++ hs2 with [] => None | _ => Some (concat (ahs1 ++ ahs2)) end)
+                       (inner0 (fst q) m_body ab [])).
+  Proof.
+    intros H1 H2 F1 F2 Hb. rewrite fold_left_app, (fold_headers q m ns hs1 None ahs1 H1 F1). cbn [fold_left].
+    rewrite (step_body _ _ _ _ _ _ _ ab Hb). rewrite concat_app.
+    destruct hs1 as [|a1 r1].
+    - inversion F1; subst. cbn [app concat].
+      destruct hs2 as [|a2 r2].
+      + inversion F2; subst. cbn [fold_left option_map]. rewrite sort_closed. reflexivity.
+      + inversion F2 as [|? ah ? ahs' Hah HF']; subst. cbn in H2. apply andb_true_iff in H2 as [H2a H2b].
+        cbn [fold_left]. rewrite (step_header_closed q m ns None ab a2 ah H2a Hah).
+        rewrite (fold_headers_bstate q m ns ab r2 ah ahs' H2b HF'). cbn [option_map]. rewrite sort_bstate. reflexivity.
+    - cbn [app]. unfold oapp.
+      rewrite (fold_headers_closed_some q m ns ab hs2 _ ahs2 H2 F2). cbn [option_map]. rewrite sort_closed. reflexivity.
   Qed.
 End Steps.
 
